@@ -360,3 +360,60 @@ func vh_transport_dispatch() {
 		vreach("unknown")
 	}
 }
+
+// Two interfaces, forwarding off: a packet arriving on interface 1 for an address that only
+// interface 2 has is not processed by anybody (this stack is a strong-end-system host unless
+// forwarding is enabled).
+func vh_nic_other_interface() {
+	s := VHStack()
+	np := &vhNetProto{}
+	VHAddProtocols(s, []NetworkProtocol{np}, nil)
+	l1, l2 := &VHLink{Mtu: 1500}, &VHLink{Mtu: 1500}
+	n1 := VHNIC(s, 1, l1)
+	n2 := VHNIC(s, 2, l2)
+	a1, a2 := vhAddr4("addr1"), vhAddr4("addr2")
+	vassume(a1 != a2)
+	vassert(n1.AddAddress(vhNetP, a1) == nil && n2.AddAddress(vhNetP, a2) == nil, "addresses added")
+	s.routeTable = []tcpip.Route{{Destination: "\x00\x00\x00\x00", Mask: "\x00\x00\x00\x00", NIC: 2}, {Destination: "\x00\x00\x00\x00", Mask: "\x00\x00\x00\x00", NIC: 1}}
+	pkt := vnBytes("pkt", 8)
+	dst := tcpip.Address(pkt[4:8])
+	n1.DeliverNetworkPacket(l1, "", "", vhNetP, buffer.View(pkt).ToVectorisedView())
+	total := 0
+	for _, e := range np.eps {
+		total += e.handled
+	}
+	if dst == a1 {
+		vassert(total == 1, "a packet for the interface's own address is processed once")
+		vreach("own")
+	} else {
+		vassert(total == 0 && len(l1.Sent)+len(l2.Sent) == 0, "with forwarding off a packet for another interface's address (or for nobody) is neither processed nor forwarded")
+		if dst == a2 {
+			vreach("other-interface")
+		}
+	}
+}
+
+// ICMP-style error reports quote the packet that this host SENT: the socket to notify is the
+// one whose local port is the quoted source port and whose remote port is the quoted
+// destination port.
+func vh_control_dispatch() {
+	s := VHStack()
+	tp := &vhTransProto{handleOK: true, minSize: 4}
+	VHAddProtocols(s, []NetworkProtocol{&vhNetProto{}}, []TransportProtocol{tp})
+	nic := VHNIC(s, 1, &VHLink{Mtu: 1500})
+	local, remote := vhAddr4("local"), vhAddr4("remote")
+	lport, rport := vnU16("lport"), vnU16("rport")
+	vassume(lport != rport)
+	epA, epB := &vhTEP{}, &vhTEP{}
+	idA := TransportEndpointID{LocalPort: lport, LocalAddress: local, RemotePort: rport, RemoteAddress: remote}
+	idB := TransportEndpointID{LocalPort: rport, LocalAddress: local, RemotePort: lport, RemoteAddress: remote} // the mirrored connection
+	vassert(nic.demux.registerEndpoint([]tcpip.NetworkProtocolNumber{vhNetP}, vhTransP, idA, epA) == nil, "A registered")
+	vassert(nic.demux.registerEndpoint([]tcpip.NetworkProtocolNumber{vhNetP}, vhTransP, idB, epB) == nil, "B registered")
+	// the quoted transport header of a packet sent by A: source port = A's local port
+	q := make([]byte, 8)
+	q[0], q[1] = byte(lport>>8), byte(lport)
+	q[2], q[3] = byte(rport>>8), byte(rport)
+	nic.DeliverTransportControlPacket(local, remote, vhNetP, vhTransP, ControlPacketTooBig, 1400, buffer.View(q).ToVectorisedView())
+	vassert(epA.ctrl == 1 && epB.ctrl == 0, "an error report reaches exactly the socket that sent the quoted packet")
+	vreach("control")
+}
